@@ -28,6 +28,9 @@ R08.9 variable-length bounds on the length skeleton (lib/lenrun.py): for every b
       folding over the scalar arguments follows the path(s) that length selects and every unmasked access whose
       address is `in + k` / `out + k` must satisfy 0 <= k and k + size <= len.  Branches that depend on data are
       taken both ways; a run that cannot be followed is counted as not judged, never as a violation.
+R08.11 exactly len output bytes, the other half: on the same runs the stores through `out` (mask extents resolved)
+      cover every byte of [0, len) - no output byte is left unwritten.  Runs with a store whose mask or address the
+      skeleton does not determine are not judged for coverage.
 R08.10 hash kernels read whole blocks only: for every kernel the assembly managers call, with 1..4 blocks and every
       lane pointer of the argument block taken as a distinct buffer, the length skeleton's accesses through a lane
       pointer lie within [0, blocks * block size) - no software-pipelined load of a block that does not exist.
@@ -148,9 +151,10 @@ def worker(lib, objname, extra):
             hi_ = 700 if thorough else 300
             pbs = (0, 1, 8, 15) if "_update_" in name else (0,)
             pboff = extra.get("pblock_off")
-            judged = notj = nacc = 0
+            judged = notj = nacc = ncov = 0
             why = None
             badl = None
+            badc = None
             for PB in pbs:
                 for L in range(lo_, hi_ if PB == 0 else 48, step_):
                     entry = {}
@@ -178,21 +182,45 @@ def worker(lib, objname, extra):
                         why = why or rr.stopped
                         continue
                     judged += 1
+                    wr = []
+                    wr_unknown = False
                     for (i, tag, off, size, rw, masked) in rr.accesses:
                         if tag not in ("in", "out"):
                             continue
                         nacc += 1
+                        if tag == "out" and "w" in rw:
+                            if masked:
+                                wr_unknown = True
+                            else:
+                                wr.append((off, off + size))
                         if masked:
                             continue
                         avail = L
                         if off < 0 or off + size > avail:
                             badl = badl or (L, PB, i, tag, off, size, rw)
+                    # R08.11 every output byte is written
+                    if not wr_unknown and not getattr(rr, "unknown_addr", 0):
+                        ncov += 1
+                        wr.sort()
+                        reach = 0
+                        for (a_, b_) in wr:
+                            if a_ > reach:
+                                break
+                            reach = max(reach, b_)
+                        if reach < L and badc is None:
+                            badc = (L, PB, reach)
             out["lr_judged"] = out.get("lr_judged", 0) + judged
             out["lr_notjudged"] = out.get("lr_notjudged", 0) + notj
             out["lr_acc"] = out.get("lr_acc", 0) + nacc
             out["lr_bodies"] = out.get("lr_bodies", 0) + 1
             if notj and len(out.setdefault("lr_why", [])) < 3:
                 out["lr_why"].append("%s: %s" % (name, why))
+            out["lr_cov"] = out.get("lr_cov", 0) + ncov
+            if badc:
+                L, PB, reach = badc
+                add("R08.11", name, "coverage:len=%d" % L, "with len = %d%s the stores through `out` cover only the first %d byte(s) without a gap: byte %d of the output is never written" % (L, (" and a pending partial block of %d bytes" % PB) if PB else "", reach, reach), f.entry, key[1])
+            else:
+                out["lr_cov_ok"] = out.get("lr_cov_ok", 0) + 1
             if badl:
                 L, PB, i, tag, off, size, rw = badl
                 add("R08.9", name, "bounds:len=%d" % L, "with len = %d%s `%s` %s bytes %d..%d of `%s`, which has %d byte(s)" % (L, (" and a pending partial block of %d bytes" % PB) if PB else "", i.text.strip(), "writes" if "w" in rw else "reads", off, off + size - 1, tag, L), i.addr, key[1])
@@ -369,7 +397,7 @@ def run(chk):
         tot["indexed_table"] += r.get("indexed_table", 0)
         tot["zero_len"] += r.get("zero_len", 0)
         tot["zero_len_ok"] += r.get("zero_len_ok", 0)
-        for k_ in ("mask_bodies", "masked_stores", "mask_ok", "lr_judged", "lr_notjudged", "lr_acc", "lr_bodies", "lr_ok"):
+        for k_ in ("mask_bodies", "masked_stores", "mask_ok", "lr_judged", "lr_notjudged", "lr_acc", "lr_bodies", "lr_ok", "lr_cov", "lr_cov_ok"):
             tot[k_] += r.get(k_, 0)
         for w_ in r.get("lr_why", []):
             if len(chk.notes) < 12:
@@ -387,6 +415,8 @@ def run(chk):
     chk.obligations["R08.7"] = [tot["zero_len"], tot["zero_len_ok"]]
     chk.obligations["R08.8"] = [tot["mask_bodies"], tot["mask_ok"]]
     chk.obligations["R08.9"] = [tot["lr_bodies"], tot["lr_ok"]]
+    chk.obligations["R08.11"] = [tot["lr_bodies"], tot["lr_cov_ok"]]
+    chk.floor("length-skeleton runs judged for output coverage", tot["lr_cov"], 20000)
     chk.floor("(body, length) runs followed to a return on the length skeleton", tot["lr_judged"], 20000)
     chk.floor("accesses through in / out checked against len", tot["lr_acc"], 150000)
     chk.extra["length_skeleton_runs"] = {"judged": tot["lr_judged"], "not_judged": tot["lr_notjudged"], "accesses_checked": tot["lr_acc"], "bodies": tot["lr_bodies"]}
